@@ -106,7 +106,7 @@ Definition wclaim (w : who) : list (bool * stat) := match w with ByStart => [(tr
 Definition claims (p : pc) : option (list (bool * stat)) :=
   match p with
   | SUnlock r => option_map (fun st => [(true, st)]) (seen_start r)
-  | SSpawnRoot | SChain | SGo => Some [(true, Ready)]
+  | SSpawnRoot | SChain | SUnlockFail | SGo => Some [(true, Ready)]
   | TLock w _ | TCheck w _ => Some (wclaim w)
   | TUnlock w _ r => option_map (fun st => (false, st) :: wclaim w) (seen_check r)
   | TReadCluster w _ | TLeaveReq w _ | TLeaveWait w _ | TReadCtx w _ | TKill w _ | TCancel w _ | TSelect w _ | TSchedStop w =>
@@ -121,12 +121,12 @@ Definition claim_ok (l : list (nat * bool * stat)) (j : nat) (p : pc) : Prop :=
   exists cl, claims p = Some cl /\ forall b st, In (b, st) cl -> In (j, b, st) l.
 
 (** pcs of the one Start that got through, before its `go` statement *)
-Definition pre_go (p : pc) : bool := match p with SUnlock RNil | SSpawnRoot | SChain | SGo => true | _ => false end.
+Definition pre_go (p : pc) : bool := match p with SSpawnRoot | SChain | SUnlock RNil | SGo => true | _ => false end.
 (** pcs of the winner after system.Context was assigned (Start's failure path is not included: the
     assignment itself may have failed) *)
 Definition past_root (p : pc) : bool :=
   match p with
-  | SChain | SGo | Done KStart RNil => true
+  | SChain | SUnlock RNil | SGo | Done KStart RNil => true
   | _ => false
   end.
 (** the effective stop before it issued Kill(root) *)
@@ -520,20 +520,49 @@ Proof.
   pose proof (i_lock2 _ _ I _ _ Hp A). pose proof (i_lock2 _ _ I _ _ Hq B). congruence.
 Qed.
 
-(** the holder of the lock is never blocked and releases it within two of its own steps *)
-Lemma lock_released c s j : reachable c s -> lock s = Some j ->
+(** the holder of the lock is never blocked and releases it within four of its own steps (Start: the switch,
+    root creation, the rest of the chain, the deferred Unlock; stop: the switch, the deferred Unlock) *)
+Definition hrank (p : pc) : nat :=
+  match p with SCheck => 4 | SSpawnRoot => 3 | SChain => 2 | TCheck _ _ => 2 | SUnlock _ | SUnlockFail | TUnlock _ _ _ => 1 | _ => 0 end.
+
+Lemma holder_step c s j p : nth_error (thr s) j = Some p -> holder_pc p = true ->
   exists s1, step c (EStep j 0) s = Some s1 /\
-    (lock s1 = None \/ exists s2, step c (EStep j 0) s1 = Some s2 /\ lock s2 = None).
+    (lock s1 = None \/ exists p', nth_error (thr s1) j = Some p' /\ holder_pc p' = true /\ (hrank p' < hrank p)%nat).
+Proof.
+  intros Hp Hh. pose proof (nth_error_lt _ _ _ Hp) as Hlt.
+  destruct p; try discriminate; cbn [step]; rewrite Hp; cbn [step_thread].
+  - destruct (status s); eexists; (split; [reflexivity|]); right; cbn [thr goto set_thr set_check];
+      rewrite nth_error_upd_eq by auto; eexists; (split; [reflexivity|split; [reflexivity|cbn; lia]]).
+  - eexists; (split; [reflexivity|]); right; cbn [thr goto set_thr set_hasCtx];
+      rewrite nth_error_upd_eq by auto; eexists; (split; [reflexivity|split; [reflexivity|cbn; lia]]).
+  - eexists; (split; [reflexivity|]); right; cbn [thr goto set_thr set_clusterCtx];
+      rewrite nth_error_upd_eq by auto; eexists; (split; [reflexivity|split; [reflexivity|cbn; lia]]).
+  - destruct r; eexists; (split; [reflexivity|]); left; reflexivity.
+  - eexists; (split; [reflexivity|]); left; reflexivity.
+  - destruct (status s); eexists; (split; [reflexivity|]); right; cbn [thr goto set_thr set_check];
+      rewrite nth_error_upd_eq by auto; eexists; (split; [reflexivity|split; [reflexivity|cbn; lia]]).
+  - destruct r; eexists; (split; [reflexivity|]); left; reflexivity.
+Qed.
+
+Lemma holder_releases c j : forall n s p, (hrank p <= n)%nat -> nth_error (thr s) j = Some p -> holder_pc p = true ->
+  exists k s', (1 <= k <= n)%nat /\ steps_of c j k s = Some s' /\ lock s' = None.
+Proof.
+  induction n as [|n IH]; intros s p Hr Hp Hh.
+  - destruct p; try discriminate; cbn in Hr; lia.
+  - destruct (holder_step c s j p Hp Hh) as (s1 & H1 & [Hl|(p' & Hp' & Hh' & Hlt)]).
+    + exists 1%nat, s1. split; [lia|]. cbn [steps_of]. rewrite H1. auto.
+    + destruct (IH s1 p') as (k & s' & Hk & Hs & Hl); auto; [lia|].
+      exists (S k), s'. split; [lia|]. cbn [steps_of]. rewrite H1. auto.
+Qed.
+
+Lemma lock_released c s j : reachable c s -> lock s = Some j ->
+  (exists s1, step c (EStep j 0) s = Some s1) /\
+  exists k s', (1 <= k <= 4)%nat /\ steps_of c j k s = Some s' /\ lock s' = None.
 Proof.
   intros R Hl. destruct (reachable_inv _ _ R) as (n & I & _).
-  destruct (i_lock1 _ _ I _ Hl) as (p & Hp & Hh). pose proof (nth_error_lt _ _ _ Hp) as Hlt.
-  destruct p; try discriminate; cbn [step]; rewrite Hp; cbn [step_thread].
-  - (* SCheck *) destruct (status s); eexists; (split; [reflexivity|]); right; cbn [step thr goto set_thr set_check];
-      rewrite nth_error_upd_eq by auto; cbn [step_thread]; eexists; (split; [reflexivity|reflexivity]).
-  - (* SUnlock *) destruct r; eexists; (split; [reflexivity|]); left; reflexivity.
-  - (* TCheck *) destruct (status s); eexists; (split; [reflexivity|]); right; cbn [step thr goto set_thr set_check];
-      rewrite nth_error_upd_eq by auto; cbn [step_thread]; eexists; (split; [reflexivity|reflexivity]).
-  - (* TUnlock *) destruct r; eexists; (split; [reflexivity|]); left; reflexivity.
+  destruct (i_lock1 _ _ I _ Hl) as (p & Hp & Hh). split.
+  - destruct (holder_step c s j p Hp Hh) as (s1 & H1 & _). eauto.
+  - apply (holder_releases c j 4 s p); auto. destruct p; cbn; lia.
 Qed.
 
 (** progress: an unfinished thread can step, or waits for the lock whose holder can step, or waits for the
@@ -552,7 +581,7 @@ Proof.
     - right. left. split; auto. exists j. split; [|split; auto].
       + intros ->. destruct (i_lock1 _ _ I _ El) as (q & Hq & Hh). rewrite Hp in Hq. injection Hq as <-.
         destruct p; discriminate.
-      + destruct (lock_released _ _ _ R El) as (s1 & H1 & _). eauto.
+      + destruct (lock_released _ _ _ R El) as ((s1 & H1) & _). eauto.
     - left. exists 0. cbn [step]. rewrite Hp. destruct p; try discriminate; cbn [step_thread]; rewrite El; eauto. }
   destruct p; try discriminate; try (apply Lk; reflexivity);
     try (left; exists 0; cbn [step]; rewrite Hp; cbn [step_thread];
@@ -757,47 +786,48 @@ Proof.
   pose proof (i_facts _ _ I _ _ Hp) as (_ & _ & Hx & _). apply Hx. reflexivity.
 Qed.
 
-(** the Start that got through is between its Unlock and the assignment of system.Context, or is in / has
-    left its failure path (NewContext failed: there never is a root to kill) *)
-Definition in_window (p : pc) : bool :=
+(** ---- the kill is skipped only when root creation failed *)
+
+(** Start's failure path: the chain failed (root creation or later), Start unlocks and runs s.Stop itself *)
+Definition failing (p : pc) : bool :=
   match p with
-  | SUnlock RNil | SSpawnRoot => true
+  | SUnlockFail
   | TLock ByStart _ | TCheck ByStart _ | TUnlock ByStart _ _ | TReadCluster ByStart _ | TLeaveReq ByStart _ | TLeaveWait ByStart _
   | TReadCtx ByStart _ | TKill ByStart _ | TCancel ByStart _ | TSelect ByStart _ | TSchedStop ByStart | Done KStart (RStartFailed _) => true
   | _ => false
   end.
+(** the Start that got through, still inside its critical section *)
+Definition start_hold (p : pc) : bool :=
+  match p with SSpawnRoot | SChain | SUnlock RNil | SUnlockFail => true | _ => false end.
 
-Lemma window_step c e s s' :
-  (status s <> Ready -> hasCtx s = false -> exists i p, nth_error (thr s) i = Some p /\ in_window p = true) ->
-  step c e s = Some s' ->
-  (status s' <> Ready -> hasCtx s' = false -> exists i p, nth_error (thr s') i = Some p /\ in_window p = true).
+Lemma failing_claim l j p : failing p = true -> claim_ok l j p -> In (j, true, Ready) l.
 Proof.
-  intros W H.
-  inv_step H; try exact W; cbn [status hasCtx goto set_thr set_lock set_check set_hasCtx set_clusterCtx set_ctxDone
-             set_kill set_guardClosed set_leaveReq set_leaveDone set_schedStopped set_now set_skipped set_spawned thr].
-  all: try (intros; discriminate).
-  all: try (intros A; congruence).
-  all: try (intros A B;
-            destruct W as (j & q & Hq & Hw); [first [exact A | discriminate | congruence] | first [exact B | reflexivity] |];
-            destruct (Nat.eq_dec j i) as [->|Hn];
-            [rewrite Hp in Hq; injection Hq as <-; try discriminate Hw;
-             try match goal with w : who |- _ => destruct w; try discriminate Hw end;
-             try (exists i; eexists; split; [apply nth_error_upd_eq; eapply nth_error_lt; eauto|reflexivity])
-            |exists j, q; split; auto; rewrite ?upd_app by (eapply nth_error_lt; eauto);
-             try (rewrite nth_error_app1 by (rewrite length_upd; eapply nth_error_lt; eauto)); rewrite nth_error_upd_neq; auto]).
-  all: try (intros A B; exists i; eexists; split; [apply nth_error_upd_eq; eapply nth_error_lt; eauto|reflexivity]).
+  intros Hf (cl & Hc & Hin). destruct p; try discriminate; try (destruct w; try discriminate); cbn in Hc;
+    try (injection Hc as <-; apply Hin; cbn; tauto).
+  - destruct (seen_check r); [|discriminate]. cbn in Hc. injection Hc as <-. apply Hin. cbn. tauto.
+  - destruct k; try discriminate. destruct r; try discriminate. destruct (seen_stop r); [|discriminate].
+    cbn in Hc. injection Hc as <-. apply Hin. cbn. tauto.
 Qed.
 
-Lemma skip_window c s : reachable c s -> status s <> Ready -> hasCtx s = false ->
-  exists i p, nth_error (thr s) i = Some p /\ in_window p = true.
+Lemma start_hold_claim l j p : start_hold p = true -> claim_ok l j p -> In (j, true, Ready) l.
 Proof.
-  intros (ths & evs & He & <-). remember (init ths) as s0.
-  assert (W0 : status s0 <> Ready -> hasCtx s0 = false -> exists i p, nth_error (thr s0) i = Some p /\ in_window p = true).
-  { subst. cbn. congruence. }
-  clear Heqs0 He. revert s0 W0. induction evs as [|e evs IH]; intros s0 W0; cbn; auto.
-  apply IH. unfold step_or_stay. destruct (step c e s0) eqn:Hst; auto. eapply window_step; eauto.
+  intros Hf (cl & Hc & Hin). destruct p; try discriminate; cbn in Hc; try (injection Hc as <-; apply Hin; cbn; tauto).
+  destruct r; try discriminate. cbn in Hc. injection Hc as <-. apply Hin. cbn. tauto.
 Qed.
 
+Record inv3 (s : st) : Prop := {
+  k_hold : forall i p, nth_error (thr s) i = Some p -> start_hold p = true -> status s = Started;
+  k_root : status s <> Ready -> hasCtx s = false ->
+           exists i p, nth_error (thr s) i = Some p /\ (p = SSpawnRoot \/ failing p = true);
+  k_skip : skipped s = true -> hasCtx s = false /\ exists i p, nth_error (thr s) i = Some p /\ failing p = true;
+  k_kills : hasCtx s = false -> kills s = 0;
+}.
+
+Lemma inv3_init ths : inv3 (init ths).
+Proof.
+  constructor; cbn; try congruence.
+  intros i p Hq. destruct (nth_map_spawned _ _ _ Hq) as (k & -> & _). discriminate.
+Qed.
 (** ---- cancel = stop; goroutines *)
 
 Lemma eff_exists l : lin_wf l -> status_after l = Stopped -> exists j, In (j, false, Started) l.
@@ -840,44 +870,6 @@ Proof.
   split; [apply (i_len _ _ I)|]. split; [apply (i_spawned _ _ I)|apply (i_created _ _ I)].
 Qed.
 
-(** ---- the Start/Stop race: Stop lands between Start's status switch and the assignment of system.Context *)
-
-Definition race_cfg : cfg := {| cfg_cluster := false; cfg_timeout := 5 |}.
-Definition race_ths : list pc := [SLock; TLock ByStop None].
-Definition race_evs : list ev :=
-  [EStep 0 0; EStep 0 0; EStep 0 0; EStep 0 0;
-   EStep 1 0; EStep 1 0; EStep 1 0; EStep 1 0; EStep 1 0; EStep 1 0; EStep 1 0;
-   EStep 0 0; EStep 0 0; EStep 0 0; EStep 2 0]%nat.
-Definition race_state : st := run race_cfg race_evs (init race_ths).
-
-Lemma race_facts :
-  thr race_state = [Done KStart RNil; Done KStop RNil; GWait] /\
-  status race_state = Stopped /\ hasCtx race_state = true /\ kills race_state = 0 /\ ctxDone race_state = false /\
-  guardClosed race_state = false /\ leaveReq race_state = false /\ skipped race_state = true.
-Proof. vm_compute. repeat split. Qed.
-
-Lemma race_stuck evs :
-  let s := run race_cfg evs race_state in
-  thr s = [Done KStart RNil; Done KStop RNil; GWait] /\ status s = Stopped /\ kills s = 0 /\ ctxDone s = false /\ leaveReq s = false.
-Proof.
-  assert (P : forall s, thr s = [Done KStart RNil; Done KStop RNil; GWait] /\ status s = Stopped /\ kills s = 0 /\ ctxDone s = false /\ leaveReq s = false ->
-              forall e, let s' := step_or_stay race_cfg s e in
-              thr s' = [Done KStart RNil; Done KStop RNil; GWait] /\ status s' = Stopped /\ kills s' = 0 /\ ctxDone s' = false /\ leaveReq s' = false).
-  { intros s (A & B & C & D & E) e. unfold step_or_stay. destruct e as [i alt| | |dt]; cbn [step].
-    - rewrite A. destruct i as [|[|[|i]]]; cbn; rewrite ?D; cbn; auto. destruct i; cbn; auto.
-    - rewrite C. cbn. auto.
-    - rewrite E. cbn. auto.
-    - cbn. auto. }
-  intros s. subst s. revert evs. 
-  assert (G : forall evs s0, thr s0 = [Done KStart RNil; Done KStop RNil; GWait] /\ status s0 = Stopped /\ kills s0 = 0 /\ ctxDone s0 = false /\ leaveReq s0 = false ->
-          let s := run race_cfg evs s0 in thr s = [Done KStart RNil; Done KStop RNil; GWait] /\ status s = Stopped /\ kills s = 0 /\ ctxDone s = false /\ leaveReq s = false).
-  { induction evs as [|e evs IH]; intros s0 H0; cbn; auto. apply IH. apply P. auto. }
-  intros evs. apply G. destruct race_facts as (A & B & C & D & E & F & H & _). auto.
-Qed.
-
-Lemma race_reachable : reachable race_cfg race_state.
-Proof. exists race_ths, race_evs. split; [vm_compute; reflexivity|unfold race_state; reflexivity]. Qed.
-
 Lemma termination c ths evs : forallb env_pc ths = true -> (thread_steps c evs (init ths) <= 20 * length ths)%nat.
 Proof. intros He. etransitivity; [apply steps_bounded|apply total_rank_init; auto]. Qed.
 
@@ -889,18 +881,183 @@ Proof.
   intros (ths & evs0 & He & <-). exists ths, (evs0 ++ evs). split; auto. unfold run. rewrite fold_left_app. reflexivity.
 Qed.
 
-Lemma no_skip_after_start_returned c s i evs : reachable c s -> nth_error (thr s) i = Some (Done KStart RNil) ->
-  skipped (run c evs s) = skipped s.
-Proof. intros R Hp. apply hasCtx_stable. eapply start_returned_hasCtx; eauto. Qed.
 
-Lemma race_witness :
-  exists c s,
-    reachable c s /\
-    thr s = [Done KStart RNil; Done KStop RNil; GWait] /\ hasCtx s = true /\ skipped s = true /\
-    forall evs', let s' := run c evs' s in
-      thr s' = [Done KStart RNil; Done KStop RNil; GWait] /\ status s' = Stopped /\ kills s' = 0 /\ ctxDone s' = false /\ leaveReq s' = false.
+
+(** ---- preservation of inv3 *)
+
+Lemma pres_hold n c e s s' : inv n s -> inv3 s -> step c e s = Some s' ->
+  forall j q, nth_error (thr s') j = Some q -> start_hold q = true -> status s' = Started.
 Proof.
-  exists race_cfg, race_state. split; [exact race_reachable|].
-  destruct race_facts as (A & B & C & D & E & F & G & H).
-  split; [exact A|]. split; [exact C|]. split; [exact H|]. exact race_stuck.
+  intros I K H. pose proof (k_hold _ K) as G. pose proof (i_lock2 _ _ I) as L2.
+  inv_step H; try exact G; spawned_cases I.
+  all: intros j q Hq Gq; thr_cases Hq; cbn in *; try discriminate; eauto.
+  (* the status moved: the other thread would hold the lock too *)
+  all: try (assert (Hh : holder_pc q = true) by (destruct q; try discriminate; reflexivity);
+            pose proof (L2 _ _ Hq Hh) as A; pose proof (L2 _ _ Hp eq_refl) as B; congruence).
 Qed.
+
+Lemma pres_kkills n c e s s' : inv n s -> inv3 s -> step c e s = Some s' -> hasCtx s' = false -> kills s' = 0.
+Proof.
+  intros I K H. pose proof (k_kills _ K) as G.
+  inv_step H; try exact G; cbn; try congruence; auto.
+  pose proof (i_facts _ _ I _ _ Hp) as (_ & _ & _ & Hx). cbn in Hx. congruence.
+Qed.
+
+(** an untouched witness thread is still there after a step of thread i *)
+Lemma witness_other (P : pc -> Prop) l i x e :
+  (exists j p, nth_error l j = Some p /\ P p /\ j <> i) ->
+  exists j p, nth_error (upd l i x ++ e) j = Some p /\ P p.
+Proof.
+  intros (j & p & Hj & HP & Hn). exists j, p. split; auto.
+  rewrite nth_error_app1 by (rewrite length_upd; eapply nth_error_lt; eauto). rewrite nth_error_upd_neq; auto.
+Qed.
+
+Lemma witness_self (P : pc -> Prop) l i p0 x e :
+  nth_error l i = Some p0 -> P x -> exists j p, nth_error (upd l i x ++ e) j = Some p /\ P p.
+Proof.
+  intros Hi HP. exists i, x. split; auto.
+  rewrite nth_error_app1 by (rewrite length_upd; eapply nth_error_lt; eauto). apply nth_error_upd_eq. eapply nth_error_lt; eauto.
+Qed.
+
+Lemma pres_root n c e s s' : inv n s -> inv3 s -> step c e s = Some s' ->
+  status s' <> Ready -> hasCtx s' = false ->
+  exists i p, nth_error (thr s') i = Some p /\ (p = SSpawnRoot \/ failing p = true).
+Proof.
+  intros I K H. pose proof (k_root _ K) as G.
+  inv_step H; try exact G.
+  all: cbn [status hasCtx thr goto set_thr set_lock set_check set_hasCtx set_clusterCtx set_ctxDone
+             set_kill set_guardClosed set_leaveReq set_leaveDone set_schedStopped set_now set_skipped set_spawned].
+  all: try (intros; discriminate).
+  all: try (intros A; congruence).
+  all: try (intros A B; discriminate B).
+  all: intros A B.
+  all: assert (Hlt := nth_error_lt _ _ _ Hp); rewrite ?upd_app by exact Hlt.
+  all: first
+    [ exists i; eexists; split;
+      [ first [apply nth_error_upd_eq; exact Hlt | rewrite nth_error_app1 by (rewrite length_upd; exact Hlt); apply nth_error_upd_eq; exact Hlt]
+      | first [left; reflexivity | right; reflexivity] ]
+    | destruct G as (j & q & Hq & Hw); [first [exact A | discriminate | congruence] | first [exact B | reflexivity] |];
+      destruct (Nat.eq_dec j i) as [->|Hn];
+      [ rewrite Hp in Hq; injection Hq as <-; destruct Hw as [Hw|Hw]; try discriminate Hw;
+        try match goal with w : who |- _ => destruct w; try discriminate Hw end;
+        try (exists i; eexists; split;
+        [ first [apply nth_error_upd_eq; exact Hlt | rewrite nth_error_app1 by (rewrite length_upd; exact Hlt); apply nth_error_upd_eq; exact Hlt]
+        | first [left; reflexivity | right; reflexivity] ])
+      | exists j, q; split; [|exact Hw];
+        first [rewrite nth_error_upd_neq by congruence; exact Hq
+              | rewrite nth_error_app1 by (rewrite length_upd; eapply nth_error_lt; eauto); rewrite nth_error_upd_neq by congruence; exact Hq] ] ].
+Qed.
+
+Lemma pres_skip n c e s s' : inv n s -> inv3 s -> step c e s = Some s' ->
+  skipped s' = true -> hasCtx s' = false /\ exists i p, nth_error (thr s') i = Some p /\ failing p = true.
+Proof.
+  intros I K H. pose proof (k_skip _ K) as G.
+  assert (Env : thr s' = thr s -> hasCtx s' = hasCtx s -> skipped s' = skipped s ->
+                skipped s' = true -> hasCtx s' = false /\ exists i p, nth_error (thr s') i = Some p /\ failing p = true).
+  { intros -> -> ->. exact G. }
+  inv_step H; try (apply Env; reflexivity); clear Env.
+  all: cbn [skipped hasCtx thr goto set_thr set_lock set_check set_hasCtx set_clusterCtx set_ctxDone
+             set_kill set_guardClosed set_leaveReq set_leaveDone set_schedStopped set_now set_skipped set_spawned].
+  all: assert (Hlt := nth_error_lt _ _ _ Hp); rewrite ?upd_app by exact Hlt.
+  (* skipped and hasCtx unchanged: move the witness *)
+  all: try (intros A; destruct (G A) as (B & j & q & Hq & Hw); split; [first [exact B | congruence]|];
+      destruct (Nat.eq_dec j i) as [->|Hn];
+      [ rewrite Hp in Hq; injection Hq as <-; try discriminate Hw;
+        try match goal with w : who |- _ => destruct w; try discriminate Hw end;
+        try (exists i; eexists; split;
+        [ first [apply nth_error_upd_eq; exact Hlt | rewrite nth_error_app1 by (rewrite length_upd; exact Hlt); apply nth_error_upd_eq; exact Hlt]
+        | reflexivity ])
+      | exists j, q; split; [|exact Hw];
+        first [rewrite nth_error_upd_neq by congruence; exact Hq
+              | rewrite nth_error_app1 by (rewrite length_upd; eapply nth_error_lt; eauto); rewrite nth_error_upd_neq by congruence; exact Hq] ]; fail).
+  - (* SSpawnRoot succeeds although a stop skipped the kill: impossible, the failing thread would be this one *)
+    intros A. exfalso. destruct (G A) as (_ & j & q & Hq & Hw).
+    pose proof (i_facts _ _ I _ _ Hp) as (Ci & _). pose proof (i_facts _ _ I _ _ Hq) as (Cj & _).
+    assert (i = j).
+    { eapply winner_unique; [apply (i_wf _ _ I)| |].
+      - eapply (claim_in _ _ _ _ _ _ Ci); [reflexivity|cbn; auto].
+      - eapply failing_claim; eauto. }
+    subst. rewrite Hp in Hq. injection Hq as <-. discriminate.
+  - (* TReadCtx reads nil *)
+    intros _. split; [assumption|].
+    pose proof (i_facts _ _ I _ _ Hp) as ((cl & Hc & Hin) & _). cbn in Hc. injection Hc as <-.
+    assert (St : status s = Stopped).
+    { rewrite (i_status _ _ I). eapply after_eff_entry; [apply (i_wf _ _ I)|apply Hin; cbn; auto]. }
+    destruct (k_root _ K) as (j & q & Hq & [->|Hw]); [congruence|assumption| |].
+    + pose proof (k_hold _ K _ _ Hq eq_refl). congruence.
+    + destruct (Nat.eq_dec j i) as [->|Hn].
+      * rewrite Hp in Hq. injection Hq as <-. exists i. eexists. split; [apply nth_error_upd_eq; exact Hlt|].
+        destruct w; try discriminate Hw; reflexivity.
+      * exists j, q. split; [|exact Hw]. rewrite nth_error_upd_neq by congruence. exact Hq.
+Qed.
+
+Lemma inv3_step n c e s s' : inv n s -> inv2 s -> inv3 s -> step c e s = Some s' -> inv3 s'.
+Proof.
+  intros I I2 K H. constructor.
+  - eapply pres_hold; eauto.
+  - eapply pres_root; eauto.
+  - eapply pres_skip; eauto.
+  - eapply pres_kkills; eauto.
+Qed.
+
+Lemma run_inv3 n c evs s : inv n s /\ inv2 s -> inv3 s -> inv3 (run c evs s).
+Proof.
+  revert s. induction evs as [|e evs IH]; intros s I K; cbn; auto.
+  unfold step_or_stay. destruct (step c e s) eqn:Hst; [|apply IH; auto].
+  apply IH; [eapply inv_step_pres; eauto|destruct I; eapply inv3_step; eauto].
+Qed.
+
+Lemma reachable_inv3 c s : reachable c s -> inv3 s.
+Proof. intros (ths & evs & He & <-). eapply run_inv3; [apply inv_init; auto|apply inv3_init]. Qed.
+
+(** ---- Stop terminates the system *)
+
+Lemma skip_only_if_root_failed c s : reachable c s -> skipped s = true ->
+  hasCtx s = false /\ kills s = 0 /\ exists i p, nth_error (thr s) i = Some p /\ failing p = true.
+Proof.
+  intros R Hs. pose proof (reachable_inv3 _ _ R) as K. destruct (k_skip _ K Hs) as (A & B).
+  split; auto. split; auto. apply (k_kills _ K A).
+Qed.
+
+Lemma root_nil_only_in_start_or_failed c s : reachable c s -> status s <> Ready -> hasCtx s = false ->
+  exists i p, nth_error (thr s) i = Some p /\
+    ((p = SSpawnRoot /\ lock s = Some i /\ status s = Started) \/ failing p = true).
+Proof.
+  intros R A B. pose proof (reachable_inv3 _ _ R) as K. destruct (reachable_inv _ _ R) as (n & I & _).
+  destruct (k_root _ K A B) as (i & p & Hp & [->|Hf]); exists i; eexists; (split; [exact Hp|]).
+  - left. split; auto. split; [apply (i_lock2 _ _ I _ _ Hp eq_refl)|apply (k_hold _ K _ _ Hp eq_refl)].
+  - right. exact Hf.
+Qed.
+
+Lemma start_holds_lock c s i p : reachable c s -> nth_error (thr s) i = Some p -> start_hold p = true ->
+  lock s = Some i /\ status s = Started.
+Proof.
+  intros R Hp Hh. pose proof (reachable_inv3 _ _ R) as K. destruct (reachable_inv _ _ R) as (n & I & _).
+  split; [|apply (k_hold _ K _ _ Hp Hh)]. apply (i_lock2 _ _ I _ _ Hp). destruct p; try discriminate; reflexivity.
+Qed.
+
+Lemma stop_terminates c s i k r : reachable c s -> nth_error (thr s) i = Some (Done k r) -> stop_nil k r = true ->
+  hasCtx s = true ->
+  status s = Stopped /\ schedStopped s = true /\ kills s = 1 /\ guardClosed s = true /\ ctxDone s = true.
+Proof.
+  intros R Hp Hn Hc. destruct (stop_effect _ _ _ _ _ R Hp Hn) as (A & B & [Hs|(C & D & E & F)]).
+  - destruct (skip_only_if_root_failed _ _ R Hs) as (G & _). congruence.
+  - auto.
+Qed.
+
+Lemma stop_terminates_after_start c s i k r i0 : reachable c s ->
+  nth_error (thr s) i0 = Some (Done KStart RNil) ->
+  nth_error (thr s) i = Some (Done k r) -> stop_nil k r = true ->
+  status s = Stopped /\ schedStopped s = true /\ kills s = 1 /\ guardClosed s = true /\ ctxDone s = true.
+Proof. intros R H0 Hp Hn. eapply stop_terminates; eauto. eapply start_returned_hasCtx; eauto. Qed.
+
+Lemma stop_effect_full c s i k r : reachable c s -> nth_error (thr s) i = Some (Done k r) -> stop_nil k r = true ->
+  status s = Stopped /\ schedStopped s = true /\
+  ((hasCtx s = true /\ kills s = 1 /\ guardClosed s = true /\ ctxDone s = true)
+   \/ (hasCtx s = false /\ kills s = 0 /\ skipped s = true /\ exists j p, nth_error (thr s) j = Some p /\ failing p = true)).
+Proof.
+  intros R Hp Hn. destruct (stop_effect _ _ _ _ _ R Hp Hn) as (A & B & [Hs|(C & D & E & F)]).
+  - destruct (skip_only_if_root_failed _ _ R Hs) as (G & H & J). split; [exact A|]. split; [exact B|]. right. repeat split; assumption.
+  - split; [exact A|]. split; [exact B|]. left. repeat split; assumption.
+Qed.
+
